@@ -34,30 +34,59 @@ namespace
 
   // Neumann sum of the filtered operator: N = I - Mt^-1 F A with F the defect filter (F = I for the none filter).
   // FEAT applies filter_def to A*x inside the recursion, which is not mentioned in the class documentation; for a unit
-  // filter the sum therefore is the Neumann sum *of the filtered system*.  `inner` selects whether F is applied.
+  // filter the sum therefore is the Neumann sum *of the filtered system*, for a mean filter F is the DEFECT projection
+  // P_def = I - dual prim^T / vol (not the correction projection applied to the final result).  `inner` selects whether
+  // F is applied.
   struct PolyRef
   {
-    std::shared_ptr<std::vector<LD>> A; std::vector<LD> minv; std::vector<char> fixed; Index n; unsigned m; bool inner;
+    std::shared_ptr<std::vector<LD>> A; std::vector<LD> minv; FilterModel fm; Index n; unsigned m; bool inner; std::size_t len; LD range = 0; // range: largest finite value of the working precision
     RefVec operator()(const std::vector<LD>& b) const
     {
       RefVec t; t.v.resize(n); t.s.resize(n);
       for(Index i = 0; i < n; ++i) { t.v[i] = minv[i] * b[i]; t.s[i] = 2.0L * std::fabs(t.v[i]); }
       // term_k = N term_{k-1}; x = sum of terms.  Error majorant mirrors a Horner-type evaluation x <- x + t - Mt^-1 F A x:
-      //   E_k = (I + |Mt^-1| F |A|) E_{k-1} + |x_{k-1}| + |t| + |Mt^-1| F |A| |x_{k-1}|
+      //   E_k = E_{k-1} + |Mt^-1| Fmaj( |A| (|x_{k-1}| + E_{k-1}) ) + |x_{k-1}| + |t| + S_t
+      // Fmaj = identity (none), restriction to the free components (unit), mean_majorant (mean: input error through
+      // |I| + |dual||prim|^T/|vol| plus the rounding of the filter's own dot product / axpy)
+      // Range guard: the oblique defect projection couples rows of very different scale (1e-6..1e6), so the exact
+      // Neumann terms can leave the range of the working precision (float: 1e53 seen); `peak` majorises every exact
+      // intermediate FEAT has to hold (x, A x and its partial sums, the filter's dot product, Mt^-1 F A x).  If it comes
+      // within 1e-6 of the range nothing is asserted about this apply (majorant = infinity, counted by compare_vec).
+      const bool mean = inner && fm.fkind == 2;
+      LD peak = 0;
       RefVec x = t; std::vector<LD> term = t.v;
       for(unsigned k = 1; k <= m; ++k)
       {
         RefVec at = dense_mv(*A, n, term);
+        if(mean) { at.s.assign(n, 0.0L); mean_project(fm, at, false, len); } // values only (at.s is not used)
         std::vector<LD> absx(n); for(Index i = 0; i < n; ++i) absx[i] = std::fabs(x.v[i]);
         RefVec ax = dense_mv(*A, n, absx, &x.s); // ax.s = |A| (|x| + E)
+        if(mean) ax.s = mean_majorant(fm, ax.s, false, len);
+        if(range > 0)
+        {
+          std::vector<LD> mag = dense_mv(*A, n, absx).s; // |A||x|
+          LD msum = 0; for(Index i = 0; i < n; ++i) { peak = std::max(peak, std::max(absx[i], mag[i])); msum += mag[i]; }
+          if(mean)
+          {
+            peak = std::max(peak, 4.0L * msum); // dot product with weights <= 3 (partial sums included)
+            std::vector<LD> fmag = mean_majorant(fm, mag, false, len);
+            for(Index i = 0; i < n; ++i) peak = std::max(peak, std::max(fmag[i], std::fabs(minv[i]) * fmag[i]));
+          }
+          else for(Index i = 0; i < n; ++i) peak = std::max(peak, std::fabs(minv[i]) * mag[i]);
+        }
         for(Index i = 0; i < n; ++i)
         {
-          const bool fz = inner && fixed[i];
+          const bool fz = inner && fm.fkind != 2 && fm.fixed[i];
           term[i] = term[i] - (fz ? 0.0L : minv[i] * at.v[i]);
           const LD g = fz ? 0.0L : std::fabs(minv[i]) * ax.s[i];
           x.s[i] = x.s[i] + g + std::fabs(x.v[i]) + std::fabs(t.v[i]) + t.s[i];
         }
         for(Index i = 0; i < n; ++i) x.v[i] += term[i];
+      }
+      if(range > 0)
+      {
+        for(Index i = 0; i < n; ++i) peak = std::max(peak, std::fabs(x.v[i]));
+        if(!(peak < 1e-6L * range)) x.s.assign(n, std::numeric_limits<LD>::infinity());
       }
       return x;
     }
@@ -79,7 +108,7 @@ namespace
         [&](const MT_& mm, const auto& ff) { return Solver::new_polynomial_precond(mm, ff, Index(mm_), DT(omega)); },
         [omega, mm_, &c](const Sys& t)
         {
-          PolyRef r; r.A = std::make_shared<std::vector<LD>>(t.a); r.n = t.n; r.m = mm_; r.fixed = t.fixed; r.inner = true;
+          PolyRef r; r.A = std::make_shared<std::vector<LD>>(t.a); r.n = t.n; r.m = mm_; r.fm = static_cast<const FilterModel&>(t); r.inner = true; r.len = t.n; r.range = t.fkind == 2 ? (LD)std::numeric_limits<DT>::max() : 0.0L; // none/unit: unchanged (no guard)
           r.minv.resize(t.n); for(Index i = 0; i < t.n; ++i) r.minv[i] = (LD)omega / t.a[std::size_t(i) * t.n + i];
           // bookkeeping only: does the undocumented inner defect filter change the filtered result for this system?
           if(t.unit_filter && mm_ > 0)
@@ -88,6 +117,14 @@ namespace
             RefVec a = r(ones), b = lit(ones); bool differs = false;
             for(Index i = 0; i < t.n; ++i) if(!t.fixed[i] && std::fabs(a.v[i] - b.v[i]) > 1e-9L * (std::fabs(a.v[i]) + std::fabs(b.v[i]))) differs = true;
             c.count(differs ? "poly:inner-filter-changes-result" : "poly:inner-filter-irrelevant");
+          }
+          else if(t.fkind == 2 && mm_ > 0)
+          {
+            PolyRef lit = r; lit.inner = false; std::vector<LD> ones(t.n, 1.0L);
+            RefVec a = r(ones), b = lit(ones); bool differs = false;
+            filter_ref(t, a, t.n); filter_ref(t, b, t.n);
+            for(Index i = 0; i < t.n; ++i) if(std::fabs(a.v[i] - b.v[i]) > 1e-9L * (std::fabs(a.v[i]) + std::fabs(b.v[i]))) differs = true;
+            c.count(differs ? "poly:inner-mean-defect-filter-changes-result" : "poly:inner-mean-defect-filter-irrelevant");
           }
           return r;
         }, [] {}, s.n);
